@@ -103,7 +103,11 @@ class Route:
             if f_out:
                 prt = f_out(prt)
             if f_in:
-                assert f_in(prt)[1]  # `pos` must be > 0 if match
+                # the filter may look ahead (e.g. `path`), so let it see the literal that follows
+                nxt = pattern_out.find('\r', cidx)
+                tail = pattern_out[cidx:] if nxt < 0 else pattern_out[cidx:nxt]
+                value, pos, _ = f_in(prt + tail)
+                assert value is not None and pos == len(prt)  # the whole value must match
             ret.append(prt)
 
         if clen:
